@@ -135,6 +135,28 @@ theorem runeLoop_preserves (P : Nat → Bool) (repl : Nat → Option Str)
       · rename_i t ht; exact hrepl _ t ht
       · exact all_take _ _ hs
 
+/-- the fuel `s.length` is enough: more fuel changes nothing (every step consumes at least one byte), so the loop
+    processes the whole string as the Go loop does -/
+theorem runeLoop_fuel (repl : Nat → Option Str) : ∀ n s, s.length ≤ n → runeLoop repl (n + 1) s = runeLoop repl n s := by
+  intro n
+  induction n with
+  | zero =>
+    intro s hl
+    have : s = [] := List.eq_nil_of_length_eq_zero (by omega)
+    subst this
+    simp [runeLoop]
+  | succ m ih =>
+    intro s hl
+    cases s with
+    | nil => simp [runeLoop]
+    | cons c rest =>
+      have hw := decodeRune_width_pos c rest
+      have hd : ((c :: rest).drop (decodeRune (c :: rest)).2).length ≤ m := by
+        simp only [List.length_drop, List.length_cons] at hl ⊢
+        omega
+      simp only [runeLoop]
+      rw [ih _ hd]
+
 /-- ASCII bytes that are never replaced pass through unchanged -/
 theorem runeLoop_ident (repl : Nat → Option Str) (P : Nat → Bool)
     (hP : ∀ c, P c = true → c < 0x80 ∧ repl c = none) :
@@ -522,5 +544,187 @@ theorem jsLoop_ok : ∀ fuel s tail, jsStrBodyOk (runeLoop jsStrRepl fuel s ++ t
           simp only [List.cons_append, List.nil_append]
           rw [jsOk_plain _ _ (jsRepl_none_plain _ hnone), ih]
         · rw [jsOk_plain_list _ _ (jsOk_high _ hge), ih]
+
+/-! ## the scheme of a filtered, normalised URL -/
+
+theorem cutColon_append (img rest : Str) (h : ∀ b ∈ img, b ≠ 58) :
+    cutColon (img ++ rest) = (cutColon rest).map (img ++ ·) := by
+  induction img with
+  | nil => cases hcr : cutColon rest <;> simp [hcr]
+  | cons c t ih =>
+    have hc : c ≠ 58 := h c (by simp)
+    have ht := ih (fun b hb => h b (by simp [hb]))
+    simp only [List.cons_append, cutColon, hc, if_false, ht]
+    cases cutColon rest <;> simp
+
+theorem pctEncode_no_colon (c : Nat) : ∀ b ∈ pctEncode c, b ≠ 58 := by
+  have h1 : (c / 16) % 16 < 16 := Nat.mod_lt _ (by decide)
+  have h2 : c % 16 < 16 := Nat.mod_lt _ (by decide)
+  intro b hb
+  simp only [pctEncode, List.mem_cons, List.not_mem_nil, or_false] at hb
+  unfold hexDigit at hb
+  rcases hb with rfl | rfl | rfl
+  · decide
+  · split <;> omega
+  · split <;> omega
+
+theorem pctEncode_not_scheme (c : Nat) : (pctEncode c).all isSchemeChar = false := by
+  simp [pctEncode, isSchemeChar, isAlnum]
+
+/-- the image of one byte under the normaliser -/
+def normImg (c : Nat) (rest : Str) : Str := if urlKeep true c rest then [c] else pctEncode c
+
+theorem urlNormalize_cons (c : Nat) (rest : Str) : urlNormalize (c :: rest) = normImg c rest ++ urlNormalize rest := by
+  simp [urlNormalize, urlProcess, normImg]
+
+theorem urlKeep_colon (rest : Str) : urlKeep true 58 rest = true := by
+  simp [urlKeep, isReserved]
+
+/-- the prefix before the first `:` of the normalised URL: if it consists of scheme characters only, it is the
+    prefix of the original URL, unchanged -/
+theorem cutColon_normalize (u : Str) :
+    match cutColon u with
+    | none => cutColon (urlNormalize u) = none
+    | some p => ∃ p', cutColon (urlNormalize u) = some p' ∧ (p'.all isSchemeChar = true → p' = p) := by
+  induction u with
+  | nil => simp [cutColon, urlNormalize, urlProcess]
+  | cons c rest ih =>
+    by_cases hc : c = 58
+    · subst hc
+      simp only [cutColon, if_true]
+      refine ⟨[], ?_, fun _ => rfl⟩
+      rw [urlNormalize_cons]
+      simp [normImg, urlKeep_colon, cutColon]
+    · have himg : ∀ b ∈ normImg c rest, b ≠ 58 := by
+        unfold normImg
+        split
+        · intro b hb; simp at hb; subst hb; exact hc
+        · exact pctEncode_no_colon c
+      rw [urlNormalize_cons, cutColon_append _ _ himg]
+      simp only [cutColon, hc, if_false]
+      cases hcut : cutColon rest with
+      | none =>
+        rw [hcut] at ih
+        simp [ih]
+      | some p =>
+        rw [hcut] at ih
+        obtain ⟨p', hp', hall⟩ := ih
+        simp only [Option.map_some]
+        refine ⟨normImg c rest ++ p', by simp [hp'], ?_⟩
+        intro h
+        simp only [List.all_append, Bool.and_eq_true] at h
+        have hp := hall h.2
+        subst hp
+        unfold normImg at h ⊢
+        split
+        · rfl
+        · rename_i hk
+          simp only [hk, Bool.false_eq_true, if_false] at h
+          have := pctEncode_not_scheme c
+          rw [this] at h
+          exact absurd h.1 (by simp)
+
+theorem foldLower_eq_asciiLower (p : Str) (h : p.all isSchemeChar = true) : foldLower p = asciiLower p := by
+  induction p with
+  | nil => rfl
+  | cons c t ih =>
+    simp only [List.all_cons, Bool.and_eq_true] at h
+    have hc : c ≠ 0xC5 := by
+      intro h5; subst h5
+      have := h.1
+      simp [isSchemeChar, isAlnum] at this
+    have ht := ih h.2
+    unfold asciiLower at ht ⊢
+    rw [foldLower.eq_def]
+    split
+    · rename_i heq; cases heq
+    · rename_i heq; injection heq with h1 _; exact absurd h1 hc
+    · rename_i heq
+      injection heq with h1 h2
+      subst h1 h2
+      simp [ht]
+
+theorem schemeChars_no_slash (p : Str) (h : p.all isSchemeChar = true) : p.contains 47 = false := by
+  induction p with
+  | nil => rfl
+  | cons c t ih =>
+    simp only [List.all_cons, Bool.and_eq_true] at h
+    have hc : c ≠ 47 := by
+      intro h5; subst h5
+      have := h.1
+      simp [isSchemeChar, isAlnum] at this
+    have := ih h.2
+    simp only [List.contains_cons, Bool.or_eq_false_iff]
+    exact ⟨by simp; exact fun h' => hc h'.symm, this⟩
+
+/-- a URL that `isSafeURL` accepts still has no foreign scheme after normalisation -/
+theorem schemeOk_normalize (u : Str) (h : isSafeURL u = true) : schemeOk (urlNormalize u) = true := by
+  have hc := cutColon_normalize u
+  unfold isSafeURL at h
+  unfold schemeOk
+  cases hcut : cutColon u with
+  | none =>
+    rw [hcut] at hc
+    simp [hc]
+  | some p =>
+    rw [hcut] at hc h
+    obtain ⟨p', hp', hall⟩ := hc
+    simp only [hp']
+    cases p' with
+    | nil => rfl
+    | cons c t =>
+      by_cases hs : (c :: t).all isSchemeChar = true
+      · have hp := hall hs
+        subst hp
+        have h47 := schemeChars_no_slash _ hs
+        simp only [h47, Bool.false_or] at h
+        rw [foldLower_eq_asciiLower _ hs] at h
+        simp only [h, Bool.or_true]
+      · have : (c :: t).all isSchemeChar = false := by simpa using hs
+        simp only [this, Bool.and_false, Bool.not_false, Bool.true_or]
+
+/-! ## `unescapeRefs ∘ htmlEscape` on URL bytes -/
+
+theorem unescapeRefs_other (c : Nat) (rest : Str) (hc : c ≠ 38) : unescapeRefs (c :: rest) = c :: unescapeRefs rest := by
+  rw [unescapeRefs.eq_def]
+  split
+  · rename_i heq; cases heq
+  all_goals first
+    | (rename_i heq; injection heq with h1 _; exact absurd h1 hc)
+    | (rename_i heq; injection heq with h1 h2; subst h1 h2; rfl)
+
+theorem runeLoop_ascii (repl : Nat → Option Str) (n c : Nat) (rest : Str) (hc : c < 0x80) :
+    runeLoop repl (n + 1) (c :: rest) = (match repl c with | some t => t | none => [c]) ++ runeLoop repl n rest := by
+  have hd : decodeRune (c :: rest) = (c, 1) := by simp [decodeRune, hc]
+  simp only [runeLoop, hd]
+  cases repl c <;> simp
+
+/-- the browser's character-reference decoding undoes the attribute escaper on normalised URL bytes -/
+theorem unescape_htmlEscape_url (x : Str) (h : x.all urlByte = true) : unescapeRefs (htmlEscape x) = x := by
+  unfold htmlEscape htmlReplacer
+  induction x with
+  | nil => simp [runeLoop, unescapeRefs]
+  | cons c rest ih =>
+    simp only [List.all_cons, Bool.and_eq_true] at h
+    have hv := urlByte_visible c h.1
+    have hlt : c < 0x80 := by simp [visible] at hv; omega
+    simp only [List.length_cons]
+    rw [runeLoop_ascii _ _ _ _ hlt]
+    have ihr := ih h.2
+    by_cases h38 : c = 38
+    · subst h38
+      simp [htmlRepl, htmlTbl, unescapeRefs, ihr]
+    · by_cases h43 : c = 43
+      · subst h43
+        simp [htmlRepl, htmlTbl, unescapeRefs, ihr]
+      · have hne : c ≠ 0 ∧ c ≠ 34 ∧ c ≠ 39 ∧ c ≠ 60 ∧ c ≠ 62 := by
+          have := h.1
+          simp [urlByte, isReserved, isUnreserved, isUnreservedMark, isAlnum] at this
+          omega
+        have ht : htmlTbl c = none := by
+          unfold htmlTbl
+          split <;> first | rfl | omega
+        simp only [htmlRepl, ht, Bool.not_true, Bool.false_and, Bool.false_eq_true, if_false, List.cons_append, List.nil_append]
+        rw [unescapeRefs_other _ _ h38, ihr]
 
 end ZoektModel.C36
